@@ -297,8 +297,11 @@ impl Mut {
         if obs.blocks > 0 && !o.at_safepoint {
             violation("C10", format!("block_for_gc-although-at_safepoint-is-false:{}", oc), ctx());
         }
+        // (An over-committing request at a safepoint may still block: when the space has no
+        // address range left, MMTk forces a GC and retries.  "May exceed the heap size without
+        // blocking" is observed as coverage -- overcommit_success_beyond_heap_size -- not demanded.)
         if obs.blocks > 0 && o.allow_overcommit && o.at_safepoint && !obs.null {
-            violation("C10", "overcommit-request-blocked-for-gc", ctx());
+            with_report("C10", |r| r.count("overcommit_requests_that_blocked_and_then_succeeded", 1));
         }
         if obs.null && o.at_safepoint && o.allow_oom_call && obs.ooms == 0 {
             violation("C10", format!("null-result-without-oom-callback:{}", oc), ctx());
